@@ -554,7 +554,8 @@ theorem remoteInput_specD (s s' : P2P) (gh : DGhost) (t0 : TLState) (reqs : List
       s'.sync.queues.length = s.sync.queues.length ∧ s'.disconnectFrame = s.disconnectFrame ∧
       (∀ p, (gh.specs p).vals.length ≤ (gh'.specs p).vals.length) ∧
       (∀ p, (rget s'.localConnectStatus p).disconnected = (rget s.localConnectStatus p).disconnected) ∧
-      (∀ p, (rget s.localConnectStatus p).disconnected = true → rget s'.localConnectStatus p = rget s.localConnectStatus p) := by
+      (∀ p, (rget s.localConnectStatus p).disconnected = true → rget s'.localConnectStatus p = rget s.localConnectStatus p) ∧
+      (∀ p, p ≠ player → gh'.specs p = gh.specs p) := by
   unfold P2P.handleEventCore at hev
   simp only at hev
   obtain ⟨_, hev⟩ := ensure_bind_ok hev
@@ -562,7 +563,7 @@ theorem remoteInput_specD (s s' : P2P) (gh : DGhost) (t0 : TLState) (reqs : List
   · simp only [hd, Bool.not_true, Bool.false_eq_true, if_false] at hev
     have := pure_ok hev
     subst this
-    exact ⟨gh, st0, h, rfl, rfl, rfl, rfl, rfl, rfl, rfl, fun _ => Nat.le_refl _, fun _ => rfl, fun _ _ => rfl⟩
+    exact ⟨gh, st0, h, rfl, rfl, rfl, rfl, rfl, rfl, rfl, fun _ => Nat.le_refl _, fun _ => rfl, fun _ _ => rfl, fun _ _ => rfl⟩
   have hnd : (rget s.localConnectStatus player).disconnected = false := by simpa using hd
   simp only [hnd, Bool.not_false, if_true] at hev
   obtain ⟨hseq, hev⟩ := ensure_bind_ok hev
@@ -608,7 +609,8 @@ theorem remoteInput_specD (s s' : P2P) (gh : DGhost) (t0 : TLState) (reqs : List
         · exact Or.inl hx
         · right; rw [← hlu]; omega)
   refine ⟨{ gh with specs := fun i => if i = player then ((gh.specs player).submit inp.frame inp.input).1 else gh.specs i },
-    rset st0 player ⟨false, inp.frame⟩, ?_, rfl, rfl, rfl, rfl, rfl, rset_length _ _ _, rfl, ?_, ?_, ?_⟩
+    rset st0 player ⟨false, inp.frame⟩, ?_, rfl, rfl, rfl, rfl, rfl, rset_length _ _ _, rfl, ?_, ?_, ?_,
+    fun p hp => by show (if p = player then _ else gh.specs p) = _; rw [if_neg hp]⟩
   rotate_left
   · intro p
     show _ ≤ (if p = player then _ else gh.specs p).vals.length
@@ -652,7 +654,10 @@ theorem registerOne_specD (s s' : P2P) (gh : DGhost) (t0 : TLState) (reqs : List
       (∀ p, (gh.specs p).vals.length ≤ (gh'.specs p).vals.length) ∧
       (∀ p, (rget s'.localConnectStatus p).disconnected = (rget s.localConnectStatus p).disconnected) ∧
       (∀ p, (rget s.localConnectStatus p).disconnected = true → rget s'.sync.queues p = rget s.sync.queues p ∧
-        rget s'.localConnectStatus p = rget s.localConnectStatus p) := by
+        rget s'.localConnectStatus p = rget s.localConnectStatus p) ∧
+      (∀ p, p ≠ hd → gh'.specs p = gh.specs p) ∧
+      (∃ pi, s.pendingInputOf hd = .ok pi ∧
+        gh'.specs = fun i => if i = hd then ((gh.specs hd).submit pi.frame pi.input).1 else gh.specs i) := by
   unfold P2P.registerOne at hreg
   obtain ⟨pi, hpi, hreg⟩ := bind_ok hreg
   obtain ⟨r, hadd, hreg⟩ := bind_ok hreg
@@ -733,7 +738,8 @@ theorem registerOne_specD (s s' : P2P) (gh : DGhost) (t0 : TLState) (reqs : List
       · rw [hc2.pending]; show s2.pendingLocalInputs = s.pendingLocalInputs; rw [hc1.pending]
       · rw [hc2.numPlayers]; show s2.numPlayers = s.numPlayers; rw [hc1.numPlayers]
       · rw [hc2.disconnectFrame]; show s2.disconnectFrame = s.disconnectFrame; rw [hc1.disconnectFrame]
-    refine ⟨_, _, SessInvD_congr _ s' _ t0 reqs _ hupd hcore, rfl, rfl, ?_, ?_, ?_, ?_, ?_, ?_, ?_, ?_, hgrow, ?_, ?_⟩
+    refine ⟨_, _, SessInvD_congr _ s' _ t0 reqs _ hupd hcore, rfl, rfl, ?_, ?_, ?_, ?_, ?_, ?_, ?_, ?_, hgrow, ?_, ?_,
+      (fun p hp => by show (if p = hd then _ else gh.specs p) = _; rw [if_neg hp]), ⟨pi, hpi, rfl⟩⟩
     · rw [hcore.sync]
     · rw [hcore.handles]
     · rw [hcore.pred]
@@ -776,7 +782,8 @@ theorem registerOne_specD (s s' : P2P) (gh : DGhost) (t0 : TLState) (reqs : List
     have hst0 : rset st0 hd (rget s.localConnectStatus hd) = st0 := by
       rw [← e1, e0, rset_rget_self _ _ hp0]
     rw [hst0] at hupd
-    refine ⟨_, st0, hupd, rfl, rfl, rfl, rfl, rfl, rfl, rset_length _ _ _, rfl, rfl, fun he => he, hgrow, fun _ => rfl, ?_⟩
+    refine ⟨_, st0, hupd, rfl, rfl, rfl, rfl, rfl, rfl, rset_length _ _ _, rfl, rfl, fun he => he, hgrow, fun _ => rfl, ?_,
+      (fun p hp => by show (if p = hd then _ else gh.specs p) = _; rw [if_neg hp]), ⟨pi, hpi, rfl⟩⟩
     intro p hdp
     show rget (rset s.sync.queues hd q') p = _ ∧ _
     have hpp : p ≠ hd := fun he => by rw [he, hnd] at hdp; cases hdp
@@ -798,6 +805,7 @@ structure RegKeepsD (s s' : P2P) (gh gh' : DGhost) : Prop where
   flags : ∀ p, (rget s'.localConnectStatus p).disconnected = (rget s.localConnectStatus p).disconnected
   deadQ : ∀ p, (rget s.localConnectStatus p).disconnected = true → rget s'.sync.queues p = rget s.sync.queues p ∧
     rget s'.localConnectStatus p = rget s.localConnectStatus p
+  remoteSpecs : ∀ p, p ∉ s.localPlayerHandles → gh'.specs p = gh.specs p
 
 theorem registerFold_specD (t0 : TLState) (reqs : List Request) : ∀ (l : List Nat) (s s' : P2P) (gh : DGhost),
     SessInvD s gh t0 reqs s.localConnectStatus → (∀ x ∈ l, x ∈ s.localPlayerHandles) →
@@ -810,12 +818,12 @@ theorem registerFold_specD (t0 : TLState) (reqs : List Request) : ∀ (l : List 
     simp only [List.foldlM_nil] at hf
     have := pure_ok hf
     subst this
-    exact ⟨gh, h, ⟨rfl, rfl, rfl, rfl, rfl, rfl, rfl, rfl, rfl, fun _ => Nat.le_refl _, fun _ => rfl, fun _ _ => ⟨rfl, rfl⟩⟩⟩
+    exact ⟨gh, h, ⟨rfl, rfl, rfl, rfl, rfl, rfl, rfl, rfl, rfl, fun _ => Nat.le_refl _, fun _ => rfl, fun _ _ => ⟨rfl, rfl⟩, fun _ _ => rfl⟩⟩
   | cons a rest ih =>
     intro s s' gh h hl hf
     simp only [List.foldlM_cons] at hf
     obtain ⟨s1, h1, hf⟩ := bind_ok hf
-    obtain ⟨gh1, st1, hinv1, hT1, hg1, hc1, hh1, hp1, hm1, hn1, hlc1, hdf1, hst1, hgr1, hfl1, hdq1⟩ :=
+    obtain ⟨gh1, st1, hinv1, hT1, hg1, hc1, hh1, hp1, hm1, hn1, hlc1, hdf1, hst1, hgr1, hfl1, hdq1, hrs1, _⟩ :=
       registerOne_specD s s1 gh t0 reqs s.localConnectStatus a h (hl a List.mem_cons_self) h1
     rw [hst1 rfl] at hinv1
     have hlp : s1.localPlayerHandles = s.localPlayerHandles := by unfold P2P.localPlayerHandles; rw [hh1]
@@ -824,7 +832,9 @@ theorem registerFold_specD (t0 : TLState) (reqs : List Request) : ∀ (l : List 
       hk.maxPrediction.trans hm1, hk.nq.trans hn1, hk.lastConfirmed.trans hlc1, hk.df.trans hdf1,
       fun p => Nat.le_trans (hgr1 p) (hk.grows p), fun p => (hk.flags p).trans (hfl1 p),
       fun p hdp => ⟨(hk.deadQ p (by rw [hfl1 p]; exact hdp)).1.trans (hdq1 p hdp).1,
-        (hk.deadQ p (by rw [hfl1 p]; exact hdp)).2.trans (hdq1 p hdp).2⟩⟩⟩
+        (hk.deadQ p (by rw [hfl1 p]; exact hdp)).2.trans (hdq1 p hdp).2⟩,
+      fun p hnl => (hk.remoteSpecs p (by rw [hlp]; exact hnl)).trans
+        (hrs1 p (fun he => hnl (he ▸ hl a List.mem_cons_self)))⟩⟩
 
 theorem registerLocalInputs_specD (s s' : P2P) (gh : DGhost) (t0 : TLState) (reqs : List Request) (now : Nat)
     (h : SessInvD s gh t0 reqs s.localConnectStatus) (hreg : s.registerLocalInputs now = .ok s') :
@@ -837,7 +847,8 @@ theorem registerLocalInputs_specD (s s' : P2P) (gh : DGhost) (t0 : TLState) (req
   rw [← hc.statuses] at hinv'
   refine ⟨gh', hinv', ⟨hk.T, hk.gone, by rw [hc.sync]; exact hk.cur, hc.handles.trans hk.handles, hc.pred.trans hk.pred,
      hc.maxPrediction.trans hk.maxPrediction, by rw [hc.sync]; exact hk.nq, by rw [hc.sync]; exact hk.lastConfirmed,
-     hc.disconnectFrame.trans hk.df, hk.grows, by rw [hc.statuses]; exact hk.flags, by rw [hc.sync, hc.statuses]; exact hk.deadQ⟩⟩
+     hc.disconnectFrame.trans hk.df, hk.grows, by rw [hc.statuses]; exact hk.flags, by rw [hc.sync, hc.statuses]; exact hk.deadQ,
+     hk.remoteSpecs⟩⟩
 
 /-- The prediction gate with dead players. -/
 theorem rollbackGate_specD (s s' : P2P) (gh : DGhost) (t0 : TLState) (reqs reqs' : List Request)
@@ -926,6 +937,7 @@ theorem advanceRollbackFrame_specD (s s' : P2P) (gh : DGhost) (t0 : TLState) (re
       (∀ p, (rget s'.localConnectStatus p).disconnected = (rget s.localConnectStatus p).disconnected) ∧
       (∀ p, (rget s.localConnectStatus p).disconnected = true → rget s'.localConnectStatus p = rget s.localConnectStatus p) ∧
       (∀ p, gh.gone p → gh'.gone p) ∧
+      (∀ p, p ∉ s.localPlayerHandles → gh'.specs p = gh.specs p) ∧
       ((reqs' = reqs1 ∧ s'.sync.currentFrame = s.sync.currentFrame) ∨
        ∃ (c : Nat) (ins : List (Input × InputStatus)), s.sync.currentFrame = (c : Int) ∧
         reqs' = reqs1 ++ [.advance ins] ∧ ins.length = s.sync.queues.length ∧
@@ -994,7 +1006,7 @@ theorem advanceRollbackFrame_specD (s s' : P2P) (gh : DGhost) (t0 : TLState) (re
     rw [hk4.handles]; show s2.handles = _; rw [hc2.handles, hsettled.rest.1]
   have hnq4 : s4.sync.queues.length = s.sync.queues.length := by
     rw [hk4.nq]; show sy3.queues.length = _; rw [hnq3, hnq2]
-  refine ⟨s1, reqs1, gh1, gh4, gh', hsettled, hright, hinv', hh'.trans hh4, hp'.trans hpred4, hnq'.trans hnq4, ?_, ?_, ?_, ?_⟩
+  refine ⟨s1, reqs1, gh1, gh4, gh', hsettled, hright, hinv', hh'.trans hh4, hp'.trans hpred4, hnq'.trans hnq4, ?_, ?_, ?_, ?_, ?_⟩
   · intro p; rw [hst']; exact hst4 p
   · intro p hd
     have hd2 : (rget s2.localConnectStatus p).disconnected = true := by rw [hst2]; exact hd
@@ -1004,6 +1016,12 @@ theorem advanceRollbackFrame_specD (s s' : P2P) (gh : DGhost) (t0 : TLState) (re
   · intro p hg
     rw [hgo', hk4.gone]
     exact hgo3 p (by rw [hsettled.gone]; exact hg)
+  · intro p hnl
+    have hlp2 : ({ s2 with sync := sy3 } : P2P).localPlayerHandles = s.localPlayerHandles := by
+      unfold P2P.localPlayerHandles
+      show List.filterMap _ s2.handles = _
+      rw [hc2.handles, hsettled.rest.1]
+    rw [hsp', hk4.remoteSpecs p (by rw [hlp2]; exact hnl), hsp3, hsettled.specs]
   · rcases hcase with ⟨hs4, hr, _⟩ | ⟨c, ins, hc, hr, hok, hil, hcur'⟩
     · exact Or.inl ⟨hr, by rw [hs4]; exact hcur4⟩
     · have hskip : ∀ p, Skip (rget s4.localConnectStatus p) (c : Int) ↔ Skip (rget s.localConnectStatus p) (c : Int) := by
@@ -1076,14 +1094,15 @@ theorem markAll_spec : ∀ (hs : List Nat) (s : P2P),
     (∀ g, g ∉ hs → rget s'.localConnectStatus g = rget s.localConnectStatus g) ∧
     (∀ g, (rget s.localConnectStatus g).disconnected = true → (rget s'.localConnectStatus g).disconnected = true) ∧
     s'.sync = s.sync ∧ s'.disconnectFrame = s.disconnectFrame ∧ s'.remotes = s.remotes ∧ s'.handles = s.handles ∧
-    s'.pred = s.pred ∧ s'.sparse = s.sparse ∧ s'.numPlayers = s.numPlayers := by
+    s'.pred = s.pred ∧ s'.sparse = s.sparse ∧ s'.numPlayers = s.numPlayers ∧
+    s'.outgoingLocalInputs = s.outgoingLocalInputs ∧ s'.lastSentOutgoingInputFrame = s.lastSentOutgoingInputFrame := by
   intro hs
   induction hs with
-  | nil => intro s; exact ⟨rfl, (fun g hg => by cases hg), fun _ => rfl, fun _ _ => rfl, fun _ h => h, rfl, rfl, rfl, rfl, rfl, rfl, rfl⟩
+  | nil => intro s; exact ⟨rfl, (fun g hg => by cases hg), fun _ => rfl, fun _ _ => rfl, fun _ h => h, rfl, rfl, rfl, rfl, rfl, rfl, rfl, rfl, rfl⟩
   | cons h rest ih =>
     intro s
     simp only [List.foldl_cons]
-    obtain ⟨a0, a1, a2, a3, a4, a5, a6, a7, a8, a9, a10, a11⟩ := ih (s.setStatus h fun c => { c with disconnected := true })
+    obtain ⟨a0, a1, a2, a3, a4, a5, a6, a7, a8, a9, a10, a11, a12, a13⟩ := ih (s.setStatus h fun c => { c with disconnected := true })
     have hlen : (s.setStatus h fun c => { c with disconnected := true }).localConnectStatus.length = s.localConnectStatus.length := by
       simp [setStatus, rset]
     -- one step
@@ -1101,7 +1120,7 @@ theorem markAll_spec : ∀ (hs : List Nat) (s : P2P),
           simp [rset, List.set_eq_of_length_le (by omega : s.localConnectStatus.length ≤ g)]
       · simp only [hg, false_and, if_false]
         exact rget_rset_ne _ _ _ _ (fun e => hg e.symm)
-    refine ⟨a0.trans hlen, ?_, ?_, ?_, ?_, a5, a6, a7, a8, a9, a10, a11⟩
+    refine ⟨a0.trans hlen, ?_, ?_, ?_, ?_, a5, a6, a7, a8, a9, a10, a11, a12, a13⟩
     · intro g hg hl
       rcases List.mem_cons.mp hg with he | hin
       · apply a4
@@ -1138,20 +1157,23 @@ theorem disconnectAt_fields (s s' : P2P) (now handle addr : Nat) (lastFrame : Fr
     s'.localConnectStatus.length = s.localConnectStatus.length ∧
     (∀ g, (rget s.localConnectStatus g).disconnected = true → (rget s'.localConnectStatus g).disconnected = true) ∧
     s'.handles = s.handles ∧ s'.pred = s.pred ∧ s'.sparse = s.sparse ∧ s'.numPlayers = s.numPlayers ∧
-    findEp s'.remotes addr = some (ep.disconnect now) := by
+    findEp s'.remotes addr = some (ep.disconnect now) ∧
+    s'.outgoingLocalInputs = s.outgoingLocalInputs ∧ s'.lastSentOutgoingInputFrame = s.lastSentOutgoingInputFrame := by
   unfold disconnectPlayerAtFrame at h
   rw [hpt] at h
   simp only [hep, bind, Except.bind, pure, Except.pure] at h
-  obtain ⟨m0, m1, m2, m3, m4, m5, m6, m7, m8, m9, m10, m11⟩ := markAll_spec ep.handles s
+  obtain ⟨m0, m1, m2, m3, m4, m5, m6, m7, m8, m9, m10, m11, m12, m13⟩ := markAll_spec ep.handles s
   have hci : ∀ (a : P2P), a.checkInitialSync.localConnectStatus = a.localConnectStatus ∧ a.checkInitialSync.sync = a.sync ∧
       a.checkInitialSync.disconnectFrame = a.disconnectFrame ∧ a.checkInitialSync.handles = a.handles ∧
       a.checkInitialSync.pred = a.pred ∧ a.checkInitialSync.sparse = a.sparse ∧
-      a.checkInitialSync.numPlayers = a.numPlayers ∧ a.checkInitialSync.remotes = a.remotes := by
+      a.checkInitialSync.numPlayers = a.numPlayers ∧ a.checkInitialSync.remotes = a.remotes ∧
+      a.checkInitialSync.outgoingLocalInputs = a.outgoingLocalInputs ∧
+      a.checkInitialSync.lastSentOutgoingInputFrame = a.lastSentOutgoingInputFrame := by
     intro a
     unfold checkInitialSync
     split
-    · exact ⟨rfl, rfl, rfl, rfl, rfl, rfl, rfl, rfl⟩
-    · split <;> exact ⟨rfl, rfl, rfl, rfl, rfl, rfl, rfl, rfl⟩
+    · exact ⟨rfl, rfl, rfl, rfl, rfl, rfl, rfl, rfl, rfl, rfl⟩
+    · split <;> exact ⟨rfl, rfl, rfl, rfl, rfl, rfl, rfl, rfl, rfl, rfl⟩
   cases hupd : updEp (List.foldl (fun s h => s.setStatus h fun c => { c with disconnected := true }) s ep.handles).remotes addr
       (fun e => Except.ok (e.disconnect now)) with
   | error e => rw [hupd] at h; cases h
@@ -1166,19 +1188,19 @@ theorem disconnectAt_fields (s s' : P2P) (now handle addr : Nat) (lastFrame : Fr
     · have hgt' : (List.foldl (fun s h => s.setStatus h fun c => { c with disconnected := true }) s ep.handles).sync.currentFrame
           > lastFrame + 1 := by rw [m5]; exact hgt
       simp only [hgt', hgt, if_true]
-      obtain ⟨c1, c2, c3, c4, c5, c6, c7, c8⟩ := hci ({ (List.foldl (fun s h => s.setStatus h fun c => { c with disconnected := true }) s ep.handles) with
+      obtain ⟨c1, c2, c3, c4, c5, c6, c7, c8, c9, c10⟩ := hci ({ (List.foldl (fun s h => s.setStatus h fun c => { c with disconnected := true }) s ep.handles) with
         remotes := remotes,
         disconnectFrame := if ((List.foldl (fun s h => s.setStatus h fun c => { c with disconnected := true }) s ep.handles).disconnectFrame == NULL_FRAME) = true
           then lastFrame + 1 else min (List.foldl (fun s h => s.setStatus h fun c => { c with disconnected := true }) s ep.handles).disconnectFrame (lastFrame + 1) } : P2P)
-      rw [c1, c2, c3, c4, c5, c6, c7, c8]
-      exact ⟨m1, m2, m3, m5, by show (if _ then _ else _) = _; rw [m6], m0, m4, m8, m9, m10, m11, hfind⟩
+      rw [c1, c2, c3, c4, c5, c6, c7, c8, c9, c10]
+      exact ⟨m1, m2, m3, m5, by show (if _ then _ else _) = _; rw [m6], m0, m4, m8, m9, m10, m11, hfind, m12, m13⟩
     · have hgt' : ¬ (List.foldl (fun s h => s.setStatus h fun c => { c with disconnected := true }) s ep.handles).sync.currentFrame
           > lastFrame + 1 := by rw [m5]; exact hgt
       simp only [hgt', hgt, if_false]
-      obtain ⟨c1, c2, c3, c4, c5, c6, c7, c8⟩ := hci ({ (List.foldl (fun s h => s.setStatus h fun c => { c with disconnected := true }) s ep.handles) with
+      obtain ⟨c1, c2, c3, c4, c5, c6, c7, c8, c9, c10⟩ := hci ({ (List.foldl (fun s h => s.setStatus h fun c => { c with disconnected := true }) s ep.handles) with
         remotes := remotes } : P2P)
-      rw [c1, c2, c3, c4, c5, c6, c7, c8]
-      exact ⟨m1, m2, m3, m5, m6, m0, m4, m8, m9, m10, m11, hfind⟩
+      rw [c1, c2, c3, c4, c5, c6, c7, c8, c9, c10]
+      exact ⟨m1, m2, m3, m5, m6, m0, m4, m8, m9, m10, m11, hfind, m12, m13⟩
 
 end Ggrs.P2P
 
@@ -1207,8 +1229,9 @@ theorem drop_specD (s s' : P2P) (gh : DGhost) (t0 : TLState) (reqs : List Reques
       (∀ g, g ∈ ep.handles → g < s.sync.queues.length → (rget s'.localConnectStatus g).disconnected = true) ∧
       (∀ g, (rget s'.localConnectStatus g).lastFrame = (rget s.localConnectStatus g).lastFrame) ∧
       (s.sync.currentFrame ≤ lastFrame + 1 → s'.disconnectFrame = s.disconnectFrame) ∧
-      (∀ g, g ∉ ep.handles → rget s'.localConnectStatus g = rget s.localConnectStatus g) := by
-  obtain ⟨f1, f2, f3, fsync, fdf, flen, fmono, fh, fp, fsp, _, _⟩ := P2P.disconnectAt_fields s s' now handle addr lastFrame ep hpt hep hdrop
+      (∀ g, g ∉ ep.handles → rget s'.localConnectStatus g = rget s.localConnectStatus g) ∧
+      s'.outgoingLocalInputs = s.outgoingLocalInputs ∧ s'.lastSentOutgoingInputFrame = s.lastSentOutgoingInputFrame := by
+  obtain ⟨f1, f2, f3, fsync, fdf, flen, fmono, fh, fp, fsp, _, _, fout, fls⟩ := P2P.disconnectAt_fields s s' now handle addr lastFrame ep hpt hep hdrop
   have hlp : s'.localPlayerHandles = s.localPlayerHandles := by unfold P2P.localPlayerHandles; rw [fh]
   have hn1 : s.localConnectStatus.length = s.sync.queues.length := by rw [h.marks.len]; exact h.tinv.sync.nq
   have hnull : NULL_FRAME = (-1 : Int) := rfl
@@ -1239,7 +1262,7 @@ theorem drop_specD (s s' : P2P) (gh : DGhost) (t0 : TLState) (reqs : List Reques
       fun p hd => fmono p (h.marks.mono p hd)⟩, ?_, ?_, ?_, ?_, ?_, ?_, ?_,
       by rw [fsync]; exact h.deadClean,
       fun hsp p hp hg => by rw [fsync] at hp ⊢; rw [f2]; exact h.saved (by rw [← fsp]; exact hsp) p hp hg⟩,
-    fsync, fh, fp, fmono, ?_, f2, fun hle => by rw [fdf, if_neg (by omega)], f3⟩
+    fsync, fh, fp, fmono, ?_, f2, (fun hle => by rw [fdf, if_neg (by omega)]), f3, fout, fls⟩
   · -- asked
     intro p hp hc
     rw [fsync] at hp ⊢
